@@ -23,6 +23,7 @@ type c10Case struct {
 	Chunked   bool   `json:"chunked_no_content_length"`
 	Packets   int    `json:"packets"`
 	Binary    bool   `json:"binary"`
+	Upgraded  bool   `json:"session_upgraded_from_polling"`
 	Seed      string `json:"seed"`
 }
 
@@ -54,6 +55,7 @@ func genC10(rng *rand.Rand) c10Case {
 		c.Packets = 2 + rng.IntN(4)
 	}
 	c.Binary = c.Transport != "polling" && rng.IntN(2) == 0
+	c.Upgraded = c.Transport != "polling" && c.Limit >= 100 && rng.IntN(2) == 0
 	return c
 }
 
@@ -76,15 +78,31 @@ func runC10(c c10Case, rng *rand.Rand, r *rep.Report) (key, msg string, stats ma
 				return
 			}
 			canary.StartReader()
-			cl, err := w.Connect(rig.ClientCfg{Rev: c.Rev, Transport: c.Transport})
+			start := c.Transport
+			if c.Upgraded {
+				start = "polling"
+			}
+			cl, err := w.Connect(rig.ClientCfg{Rev: c.Rev, Transport: start})
 			rig.Wait()
 			if err != nil {
 				key, msg = "c10-handshake-failed", err.Error()
 				return
 			}
+			if c.Upgraded {
+				cl.StartReader()
+				if err := cl.UpgradeTo(c.Transport, nil); err != nil {
+					key, msg = "c10-upgrade-failed", err.Error()
+					return
+				}
+				time.Sleep(time.Millisecond)
+				rig.Wait()
+				stats["frames_on_upgraded_sessions"]++
+			}
 			sid := cl.Sid
 			sock := w.SocketByID(sid)
-			cl.StartReader()
+			if !c.Upgraded {
+				cl.StartReader()
+			}
 			time.Sleep(time.Millisecond)
 			rig.Wait()
 			switch c.Transport {
@@ -259,7 +277,7 @@ func TestC10(t *testing.T) {
 				cls = "far-over"
 			}
 		}
-		r.Case(fmt.Sprintf("%s/v%d/%d/%s(%d)/%v/%d/%v", c.Transport, c.Rev, c.Limit, cls, c.Size, c.Chunked, c.Packets, c.Binary), true)
+		r.Case(fmt.Sprintf("%s/v%d/%d/%s(%d)/%v/%d/%v/up%v", c.Transport, c.Rev, c.Limit, cls, c.Size, c.Chunked, c.Packets, c.Binary, c.Upgraded), true)
 		for k, v := range stats {
 			r.Obs(k, v)
 		}
